@@ -521,8 +521,13 @@ pub fn case(line: &str) -> String {
     if w.len() < 3 {
         return "badinput".to_string();
     }
-    let merged = w[0] == "1" || w[0] == "3";
-    let dump_only = w[0] == "2" || w[0] == "3";
+    // view word: bit 0 merged-text view, bit 1 dump only, bit 2 "cold" run: the queries are ALSO
+    // evaluated, in sequence with one context, on a second parse of the document that nothing has
+    // read before (no dump, no serialisation), and their values are reported as `C` sections
+    let view: u32 = w[0].parse().unwrap_or(0);
+    let merged = view & 1 == 1;
+    let dump_only = view & 2 == 2;
+    let cold = view & 4 == 4;
     let text = match dec(w[1]) {
         Some(s) => s,
         None => return "badinput".to_string(),
@@ -535,6 +540,7 @@ pub fn case(line: &str) -> String {
         return "badinput".to_string();
     }
     let mut ctx = Context::default();
+    let mut binds: Vec<(Option<String>, String)> = vec![];
     for k in 0..nb {
         let p = w[3 + 2 * k];
         let u = match dec(w[4 + 2 * k]) {
@@ -543,9 +549,13 @@ pub fn case(line: &str) -> String {
         };
         if p == "~" {
             ctx.add_ns(None, &u);
+            binds.push((None, u.clone()));
         } else {
             match dec(p) {
-                Some(p) => ctx.add_ns(Some(&p), &u),
+                Some(p) => {
+                    ctx.add_ns(Some(&p), &u);
+                    binds.push((Some(p), u.clone()));
+                }
                 None => return "badinput".to_string(),
             }
         }
@@ -561,6 +571,41 @@ pub fn case(line: &str) -> String {
         Ok((rest, d)) if rest.is_empty() => d,
         _ => return "baddoc".to_string(),
     };
+    // cold run first (before anything has looked at the other copy either)
+    let mut cold_out: Vec<String> = vec![];
+    if cold && !dump_only {
+        if let Ok((rest2, doc2)) = XmlDocument::from_raw_with_context(&text, xml_dom::Context::from_text_expanded(merged)) {
+            if rest2.is_empty() {
+                let mut ctx2 = Context::default();
+                for (p, u) in &binds {
+                    ctx2.add_ns(p.as_deref(), u);
+                }
+                enum Cold {
+                    Val(xml_xpath::eval::model::Value),
+                    Txt(String),
+                }
+                let mut vals: Vec<Cold> = vec![];
+                for e in &exprs {
+                    let r = catch_unwind(AssertUnwindSafe(|| match xml_xpath::query(doc2.clone(), e, &mut ctx2) {
+                        Ok(v) => Cold::Val(v),
+                        Err(xml_xpath::error::Error::Eval(x)) => Cold::Txt(show_err(&x)),
+                        Err(_) => Cold::Txt("err:Syntax".to_string()),
+                    }));
+                    vals.push(match r {
+                        Ok(c) => c,
+                        Err(_) => Cold::Txt("panic".to_string()),
+                    });
+                }
+                let table2 = Table::build(&doc2);
+                for v in &vals {
+                    cold_out.push(match v {
+                        Cold::Val(v) => format!("C {}", show_value(&table2, v)),
+                        Cold::Txt(t) => format!("C {}", t),
+                    });
+                }
+            }
+        }
+    }
     let table = Table::build(&doc);
     let dump0 = table.dump();
     let ser0 = format!("{}", doc);
@@ -618,6 +663,7 @@ pub fn case(line: &str) -> String {
     let mut out = vec![dump0];
     out.extend(asts);
     out.extend(results);
+    out.extend(cold_out);
     out.push(format!("U {}", if unchanged { 1 } else { 0 }));
     out.join(" # ")
 }
